@@ -55,7 +55,7 @@ pub fn check_total(text: &str) -> Result<(usize, usize, u64), Failure> {
 }
 
 /// lines that are repeated for the time-scaling family: dense in syntax errors, or valid
-const SCALE_UNITS: [&str; 10] = [
+const SCALE_UNITS: [&str; 16] = [
     "int x = foo(1, 2) { return; }\n",
     "@ ",
     "class ; def ; ",
@@ -66,6 +66,13 @@ const SCALE_UNITS: [&str; 10] = [
     "/* c */ // d\n",
     "#ifdef X\ndef hidden;\n#endif\n",
     "defvar v = [1, 2, 3][0] # \"s\" # $ ;\n",
+    // constructs that are left open on every line: each of them may make the lexer look ahead
+    "[{ } ]\n",
+    "[{\n",
+    "def d { code c = [{ x\n",
+    "/* open\n",
+    "#ifdef NEVER\n",
+    "!foo( 0b2 0x \n",
 ];
 
 fn thread_cpu_seconds() -> f64 {
@@ -83,7 +90,7 @@ impl Property for C02 {
         true
     }
     fn rule(&self) -> String {
-        format!("C01's input space plus: an unterminated string/code block/comment/#ifdef/#else inserted at every token boundary of GRAM programs, 12 nesting shapes (brackets and chained let/if/foreach) at depth 1..250, one token repeated 10^4 times. Oracle: no panic/abort, hook step count <= {WORK_FACTOR}*(tokens+1)+{WORK_CONST}, every error has a message and an in-text char-boundary range; family time-scaling: ten lines (dense in syntax errors, or valid) repeated 600 and 9600 times - the processor time of the long parse may be 64 times that of the short one (best of three) or stay under two seconds, in two rounds. Inputs with scan depth > 256 are skipped (counted). distinct = digest of text; non-trivial = >=1 syntax error, or depth >= 32, or >= 200 tokens")
+        format!("C01's input space plus: an unterminated string/code block/comment/#ifdef/#else inserted at every token boundary of GRAM programs, 12 nesting shapes (brackets and chained let/if/foreach) at depth 1..250, one token repeated 10^4 times. Oracle: no panic/abort, hook step count <= {WORK_FACTOR}*(tokens+1)+{WORK_CONST}, every error has a message and an in-text char-boundary range; family time-scaling: sixteen lines (dense in syntax errors, valid, or leaving a string / code block / comment / conditional open) repeated 600 and 9600 times - the processor time of the long parse may be 64 times that of the short one (best of three) or stay under two seconds, in two rounds. Inputs with scan depth > 256 are skipped (counted). distinct = digest of text; non-trivial = >=1 syntax error, or depth >= 32, or >= 200 tokens")
     }
     fn assumptions(&self) -> Vec<String> {
         vec![
